@@ -104,6 +104,29 @@ def run(ctx):
     ok = "hash_stream" in calls and not ({"stat", "getmtime", "getsize", "get_hash"} & calls) and "self.path" in t
     r4.check(ok, f"{m.rel}:ContentFile._calc_hash", "ContentFile's hash is not hash_stream(bytes) + path (it consults metadata, or ignores the content)", m.rel, cf.lineno)
 
+    # every content-hashed class: the resolved _calc_hash must not go through the filesystem's quick (size/mtime/ETag) hashes
+    ncontent = 0
+    for root in (m.cls("File"), m.cls("FileSet")):
+        for cm, c in repo.subclasses(root, strict=True):
+            if not c.name.startswith("Content") or "Staging" in c.name:
+                continue
+            res = repo.resolve_method(cm, c, "_calc_hash")
+            if res is None:
+                continue
+            ncontent += 1
+            fm, owner, fn = res
+            quick = [src(x)[:60] for x in calls_in(fn) if last_attr(x) in ("get_hash", "iter_file_hashes") and "filesystem" in src(x.func)]
+            r4.check(
+                not quick,
+                f"{cm.rel}:{c.name}._calc_hash[{owner.name}]:content-hashed",
+                f"{c.name} is a content-hashed class but its hash is computed by {owner.name}._calc_hash through `{quick[0] if quick else ''}`, i.e. the filesystem's quick member hashes "
+                "(size/mtime): touching a member changes the hash and invalidates cached results although no byte changed",
+                fm.rel,
+                fn.lineno,
+            )
+    if ncontent < 3:
+        raise AnalysisError(f"only {ncontent} content-hashed file classes found", "redun/file.py")
+
     r5 = ctx.rule("C30.5", "validity = recorded hash equals fresh hash; staging returns the refreshed copy", floor=4)
     for q in ("File.is_valid", "FileSet.is_valid"):
         fn = m.func(q)
